@@ -179,8 +179,39 @@ pub fn generate(repo: &PathBuf) -> Result<String, String> {
         return Err(format!("historical_verify: unexpected verdicts ({n_false} `return false`, {n_true} `return true`)"));
     }
 
+    // ---- ant-networking/src/cmd.rs: SwarmDriver::verify_peer_quote — order of the two checks against the remembered quote
+    let rel2 = "ant-networking/src/cmd.rs";
+    let cfile = parse_file(&repo.join(rel2))?;
+    let f = impl_fn(&cfile, "SwarmDriver", None, "verify_peer_quote")?;
+    let body = toks(&f.block);
+    if !body.starts_with("{ifletSome(history_quote)=self.quotes_history.get(&peer_id){") || !body.ends_with("let_=self.quotes_history.insert(peer_id,quote);}") {
+        return Err(format!("verify_peer_quote: unexpected frame {body}"));
+    }
+    let mut ifs = Ifs::default();
+    ifs.visit_block(&f.block);
+    let mut checks: Vec<&str> = vec![];
+    for c in &ifs.conds {
+        match toks(c).as_str() {
+            "letSome(history_quote)=self.quotes_history.get(&peer_id)" => {}
+            "!history_quote.historical_verify(&quote)" => checks.push("verify"),
+            "history_quote.is_newer_than(&quote)" => checks.push("newer"),
+            other => return Err(format!("verify_peer_quote: unexpected condition `{other}`")),
+        }
+    }
+    if !body.contains("if!history_quote.historical_verify(&quote){info!") || !body.contains("self.record_node_issue(peer_id,NodeIssue::BadQuoting);return;}") {
+        return Err("verify_peer_quote: a failed historical_verify is expected to record NodeIssue::BadQuoting and return".into());
+    }
+    if !body.contains("ifhistory_quote.is_newer_than(&quote){return;}") {
+        return Err("verify_peer_quote: `history_quote.is_newer_than(&quote)` is expected to return without recording".into());
+    }
+    let hf = impl_fn(&cfile, "SwarmDriver", None, "handle_local_cmd")?;
+    let hb = toks(&hf.block);
+    if !hb.contains("LocalSwarmCmd::QuoteVerification{quotes}=>{cmd_string=\"QuoteVerification\";for(peer_id,quote)inquotes{ifletSome((_issues,is_bad))=self.bad_nodes.get(&peer_id){if*is_bad{continue;}}self.verify_peer_quote(peer_id,quote);}}") {
+        return Err("handle_local_cmd: unexpected QuoteVerification arm".into());
+    }
+
     let list = |v: &[&str]| v.iter().map(|p| format!(".{p}")).collect::<Vec<_>>().join(", ");
-    let mut s = header(rel);
+    let mut s = header(&format!("{rel} and {rel2}"));
     s.push_str("namespace SafeNet.Gen.Quote\n");
     s.push_str(&format!("/-- `QUOTE_EXPIRATION_SECS` -/\ndef quoteExpirationSecs : Nat := {exp}\n"));
     s.push_str(&format!("/-- `LIVE_TIME_MARGIN` -/\ndef liveTimeMargin : Nat := {margin}\n"));
@@ -194,6 +225,8 @@ pub fn generate(repo: &PathBuf) -> Result<String, String> {
     s.push_str(&format!("/-- `historical_verify`: `new.live_time {} old.live_time` ⇒ false -/\ndef liveOutOfSeq (new old : Nat) : Bool := decide (new {} old)\n", live.unwrap(), live.unwrap()));
     s.push_str(&format!("/-- `historical_verify`: `new.received_payment_count {} old.received_payment_count` ⇒ false -/\ndef paidOutOfSeq (new old : Nat) : Bool := decide (new {} old)\n", paid.unwrap(), paid.unwrap()));
     s.push_str(&format!("/-- `historical_verify`: `live_time_diff {} time_diff + LIVE_TIME_MARGIN` ⇒ false -/\ndef liveOutOfSync (liveDiff timeDiff : Nat) : Bool := decide (liveDiff {} timeDiff + liveTimeMargin)\n", sync.unwrap(), sync.unwrap()));
+    s.push_str("/-- the checks `SwarmDriver::verify_peer_quote` (ant-networking/src/cmd.rs) runs against the remembered quote -/\ninductive HistCheck | verify | newer\n  deriving DecidableEq, Repr\n");
+    s.push_str(&format!("/-- ... in source order (`verify`: failed `historical_verify` ⇒ record `BadQuoting`, return; `newer`: remembered quote newer ⇒ return) -/\ndef historyChecks : List HistCheck := [{}]\n", list(&checks)));
     s.push_str("end SafeNet.Gen.Quote\n");
     Ok(s)
 }
